@@ -15,8 +15,10 @@ import (
 	"crypto/sha256"
 	"fmt"
 	"os"
+	"runtime/debug"
 	"sort"
 	"strings"
+	"sync"
 	"testing"
 	"testing/synctest"
 
@@ -90,46 +92,49 @@ func genC21(rt *rapid.T) any {
 	}
 	p.SweepAll = rapid.IntRange(0, 2).Draw(rt, "sweepall") != 0
 	p.Resave = rapid.IntRange(0, 3).Draw(rt, "resave") == 3
-	nb := rapid.IntRange(3, 8).Draw(rt, "nblocks")
-	for i := 0; i < nb; i++ {
+	// Lists are drawn with rapid's slice generators so that shrinking can delete
+	// single blocks and ops; every index is interpreted modulo the live universe.
+	p.Blocks = rapid.SliceOfN(rapid.Custom(func(rt *rapid.T) C21Block {
 		b := C21Block{NTx: rapid.IntRange(1, 2).Draw(rt, "ntx"), Links: rapid.IntRange(0, 2).Draw(rt, "links")}
-		if i > 0 {
-			// bias towards low parents so that several blocks share a height
-			b.Parent = rapid.IntRange(0, i-1).Draw(rt, "parent")
-			if b.Parent > 0 && rapid.Bool().Draw(rt, "parent_low") {
-				b.Parent /= 2
-			}
+		// bias towards low parents so that several blocks share a height
+		b.Parent = rapid.IntRange(0, 7).Draw(rt, "parent")
+		if rapid.Bool().Draw(rt, "parent_low") {
+			b.Parent /= 3
 		}
-		p.Blocks = append(p.Blocks, b)
-	}
-	nops := rapid.IntRange(1, 36).Draw(rt, "nops")
-	for i := 0; i < nops; i++ {
+		return b
+	}), 3, 8).Draw(rt, "blocks")
+	sweepAll := p.SweepAll
+	opGen := rapid.Custom(func(rt *rapid.T) C21Op {
 		var op C21Op
 		switch rapid.IntRange(0, 12).Draw(rt, "kind") {
 		case 0, 1, 2, 3:
 			op = C21Op{Kind: "read", A: rapid.IntRange(0, len(c21Getters)-1).Draw(rt, "getter"),
 				B: rapid.IntRange(0, 9).Draw(rt, "obj"), C: rapid.IntRange(1, 3).Draw(rt, "rep")}
 		case 4, 5, 6:
-			op = C21Op{Kind: "saveblock", A: rapid.IntRange(0, nb-1).Draw(rt, "blk"), B: rapid.IntRange(0, 1).Draw(rt, "variant")}
+			op = C21Op{Kind: "saveblock", A: rapid.IntRange(0, 7).Draw(rt, "blk"), B: rapid.IntRange(0, 1).Draw(rt, "variant")}
 		case 7, 8:
-			op = C21Op{Kind: "saveheader", A: rapid.IntRange(0, nb-1).Draw(rt, "blk"),
+			op = C21Op{Kind: "saveheader", A: rapid.IntRange(0, 7).Draw(rt, "blk"),
 				B: rapid.IntRange(1, 2).Draw(rt, "extra"), C: rapid.IntRange(0, 1).Draw(rt, "witness")}
 		case 9, 10:
-			op = C21Op{Kind: "savestatus", A: rapid.IntRange(0, nb-1).Draw(rt, "tip"),
+			op = C21Op{Kind: "savestatus", A: rapid.IntRange(0, 7).Draw(rt, "tip"),
 				B: rapid.IntRange(0, 6).Draw(rt, "depth"), C: rapid.IntRange(0, 3).Draw(rt, "final")}
 		default:
 			op = C21Op{Kind: "savecps"}
-			n := rapid.IntRange(1, 3).Draw(rt, "ncps")
-			for j := 0; j < n; j++ {
-				op.Items = append(op.Items, C21Cp{Blk: rapid.IntRange(0, nb-1).Draw(rt, "cpblk"),
-					Status: rapid.IntRange(0, 3).Draw(rt, "status"), Ver: rapid.IntRange(0, 3).Draw(rt, "ver")})
-			}
+			op.Items = rapid.SliceOfN(rapid.Custom(func(rt *rapid.T) C21Cp {
+				return C21Cp{Blk: rapid.IntRange(0, 7).Draw(rt, "cpblk"),
+					Status: rapid.IntRange(0, 3).Draw(rt, "status"), Ver: rapid.IntRange(0, 3).Draw(rt, "ver")}
+			}), 1, 3).Draw(rt, "cps")
 		}
-		if !p.SweepAll {
+		if !sweepAll {
 			op.Sweep = rapid.IntRange(0, 3).Draw(rt, "sweep") == 3
 		}
 		op.Rot = rapid.IntRange(0, 11).Draw(rt, "rot")
-		p.Ops = append(p.Ops, op)
+		return op
+	})
+	// rapid's slice lengths are geometric (mean about 5 here): four segments give
+	// histories of about 20 ops, at most 40, every op still deletable by the shrinker
+	for seg := 0; seg < 4; seg++ {
+		p.Ops = append(p.Ops, rapid.SliceOfN(opGen, 0, 10).Draw(rt, "ops")...)
 	}
 	return p
 }
@@ -530,16 +535,19 @@ type c21Run struct {
 	mainRewr   map[uint64]bool
 	heightCnt  map[uint64]int
 	lastSeen   map[string]c21Seen
-	filled     map[string]int // getter/object -> op number of the last successful read through the long-lived store
-	lastWrite  int            // op number of the last write
+	filled     map[string]int // getter/object -> clock of the last successful read through the long-lived store
+	lastWrite  int            // clock of the last write
 	lastWriteK string
-	opNo       int
+	clock      int // advances at every write and every comparison
 	history    []string
 	writeKinds map[string]bool
 	hits       int
 	changedHit int
 	obs        []byte // running digest of every observation (fingerprint)
 	capsV      [5]int
+	phase      string // where the current comparison happens (for reports)
+	// olderSaved[b]: some SaveBlock overwrote the stored header of block b with the one it first had
+	olderSaved []bool
 }
 
 func (x *c21Run) note(s string) {
@@ -562,8 +570,10 @@ func (x *c21Run) hist() string { return strings.Join(x.history, "\n   ") }
 // store, framed by two reads through fresh stores, and checks the oracle.
 func (x *c21Run) compare(g string, o int, reps int) bool {
 	r, w := x.r, x.w
+	x.clock++
 	f1, f1err := w.call(database.NewStore(x.disk), g, o)
 	key := fmt.Sprintf("%s/%d", g, o)
+	writes0 := x.disk.Writes
 	prev := ""
 	for k := 0; k < reps; k++ {
 		before := x.disk.Reads
@@ -585,7 +595,7 @@ func (x *c21Run) compare(g string, o int, reps int) bool {
 				}
 			}
 			if a != "ERROR" {
-				x.filled[key] = x.opNo
+				x.filled[key] = x.clock
 			}
 		}
 		// Was this very getter/object read through the long-lived store after the
@@ -598,28 +608,29 @@ func (x *c21Run) compare(g string, o int, reps int) bool {
 		}
 		if prev != "" && a != prev {
 			r.Violate("repeat-read", g,
-				"%s(%s): a read through the long-lived store differs from the previous read of the same thing with no write in between (the earlier read agreed with the database)\n earlier: %s\n now:     %s %s\n fresh:   %s\n caps=%v\n history:\n   %s",
-				g, w.objName(g, o), clip(prev), clip(a), aerr, clip(f1), x.caps(), x.hist())
+				"%s(%s): a read through the long-lived store differs from the previous read of the same thing with no write in between (the earlier read agreed with the database)\n earlier: %s\n now:     %s %s\n fresh:   %s\n caps=%v\n found during: %s\n history:\n   %s",
+				g, w.objName(g, o), clip(prev), clip(a), aerr, clip(f1), x.caps(), x.phase, x.hist())
 			return false
 		}
 		if a != f1 {
 			attr := g
-			if x.lastWriteK == "saveblock-with-older-header" {
-				attr += "/after-" + x.lastWriteK
+			if x.olderHeaderInvolved(g, o) {
+				// the answer depends on a header that some SaveBlock overwrote with an OLDER one
+				attr += "/after-saveblock-with-older-header"
 			}
 			r.Violate("cached-vs-fresh", attr,
-				"%s(%s) through the long-lived store differs from a fresh store over the same database (read %d of %d, last write: %s)\n long-lived: %s %s\n fresh:      %s %s\n caps=%v\n history:\n   %s",
-				g, w.objName(g, o), k+1, reps, x.lastWriteK, clip(a), aerr, clip(f1), f1err, x.caps(), x.hist())
+				"%s(%s) through the long-lived store differs from a fresh store over the same database (read %d of %d, last write: %s)\n long-lived: %s %s\n fresh:      %s %s\n caps=%v\n found during: %s\n history:\n   %s",
+				g, w.objName(g, o), k+1, reps, x.lastWriteK, clip(a), aerr, clip(f1), f1err, x.caps(), x.phase, x.hist())
 			return false
 		}
-		x.lastSeen[key] = c21Seen{at: x.opNo, val: a}
+		x.lastSeen[key] = c21Seen{at: x.clock, val: a}
 		prev = a
 	}
-	f2, _ := w.call(database.NewStore(x.disk), g, o)
-	if f2 != f1 {
-		r.Violate("reads-changed-database", g,
-			"%s(%s): a fresh store returns something else after %d reads through the long-lived store\n before: %s\n after:  %s\n history:\n   %s",
-			g, w.objName(g, o), reps, clip(f1), clip(f2), x.hist())
+	if x.disk.Writes != writes0 {
+		// what a fresh store returns is a function of the disk content alone
+		r.Violate("reads-wrote-to-database", g,
+			"%s(%s): %d reads through the long-lived store made %d write(s) to the database\n history:\n   %s",
+			g, w.objName(g, o), reps, x.disk.Writes-writes0, x.hist())
 		return false
 	}
 	x.note(key + "=" + f1)
@@ -628,6 +639,22 @@ func (x *c21Run) compare(g string, o int, reps int) bool {
 }
 
 func (x *c21Run) caps() [5]int { return x.capsV }
+
+// olderHeaderInvolved: does getter g on object o read a header that was
+// overwritten by a SaveBlock carrying an older header (runs with resave=true)?
+func (x *c21Run) olderHeaderInvolved(g string, o int) bool {
+	switch g {
+	case "GetBlockHeader", "GetBlock", "GetCheckpoint":
+		return o < len(x.olderSaved) && x.olderSaved[o]
+	case "GetCheckpointsByHeight", "CheckpointsFromNode":
+		for _, v := range x.olderSaved {
+			if v {
+				return true
+			}
+		}
+	}
+	return false
+}
 
 // changed: was the stored value behind (g,o) overwritten at least once?
 func (x *c21Run) changed(g string, o int) bool {
@@ -671,12 +698,17 @@ func (x *c21Run) sweep(rot int) bool {
 	return true
 }
 
+var c21Once sync.Once
+
 func execC21(t *testing.T, plan any, r *simkit.Run) {
 	p := plan.(*C21Plan)
 	if len(p.Blocks) == 0 {
 		return
 	}
-	logrus.SetLevel(logrus.PanicLevel) // the store logs every save; keep worker logs small
+	c21Once.Do(func() {
+		logrus.SetLevel(logrus.PanicLevel) // the store logs every save; keep worker logs small
+		debug.SetGCPercent(800)            // tiny live heap, allocation-heavy runs: collect less often
+	})
 	var captured *simkit.CapturedPanic
 	synctest.Test(t, func(t *testing.T) {
 		defer func() {
@@ -698,7 +730,7 @@ func runC21(p *C21Plan, r *simkit.Run) {
 	n := len(w.blks)
 	x := &c21Run{r: r, w: w, disk: simdisk.New(),
 		saved: make([]bool, n), hdrStored: make([]bool, n), links: make([]int, n), level: make([]int, n), wit: make([]int, n),
-		hdrWrites: make([]int, n), cpWrites: make([]int, n),
+		hdrWrites: make([]int, n), cpWrites: make([]int, n), olderSaved: make([]bool, n),
 		mainAt: map[uint64]int{}, mainRewr: map[uint64]bool{}, heightCnt: map[uint64]int{},
 		filled: map[string]int{}, lastSeen: map[string]c21Seen{}, lastWriteK: "nothing", writeKinds: map[string]bool{}}
 	var caps [5]int
@@ -724,7 +756,6 @@ func runC21(p *C21Plan, r *simkit.Run) {
 
 	for i := range p.Ops {
 		op := &p.Ops[i]
-		x.opNo = i + 1
 		line := ""
 		kind := op.Kind
 		switch op.Kind {
@@ -735,6 +766,7 @@ func runC21(p *C21Plan, r *simkit.Run) {
 			line = fmt.Sprintf("%d read %s(%s) x%d", i, g, w.objName(g, o), reps)
 			x.history = append(x.history, line)
 			r.FP(line)
+			x.phase = fmt.Sprintf("the explicit read of op %d", i)
 			if !x.compare(g, o, reps) {
 				return
 			}
@@ -747,6 +779,7 @@ func runC21(p *C21Plan, r *simkit.Run) {
 				// the block as it first came (e.g. received again from a peer): fewer SupLinks than stored
 				links, level, wit = w.blks[b].links0, 0, 0
 				kind = "saveblock-with-older-header"
+				x.olderSaved[b] = true
 			} else if x.saved[b] {
 				kind = "saveblock-again"
 			}
@@ -827,7 +860,8 @@ func runC21(p *C21Plan, r *simkit.Run) {
 			os.Exit(2)
 		}
 		if op.Kind != "read" {
-			x.lastWrite, x.lastWriteK = x.opNo, kind
+			x.clock++
+			x.lastWrite, x.lastWriteK = x.clock, kind
 			x.writeKinds[op.Kind] = true
 			r.Count("op."+kind, 1)
 			r.FP(line)
@@ -835,6 +869,7 @@ func runC21(p *C21Plan, r *simkit.Run) {
 			r.Count("op.read", 1)
 		}
 		if p.SweepAll || op.Sweep {
+			x.phase = fmt.Sprintf("the comparison of every getter on every object (each read twice) after op %d", i)
 			if !x.sweep(op.Rot) {
 				break
 			}
@@ -844,7 +879,7 @@ func runC21(p *C21Plan, r *simkit.Run) {
 		}
 	}
 	if !r.Failed() {
-		x.opNo++
+		x.phase = "the final comparison of every getter on every object (each read twice) after the last op"
 		x.sweep(0) // nothing stale may survive the end of the history
 	}
 	for _, l := range x.history {
@@ -863,7 +898,7 @@ func SpecC21() simkit.Spec {
 		Gen:     genC21,
 		NewPlan: func() any { return &C21Plan{} },
 		Exec:    execC21,
-		Rule: "histories of 1-36 ops over a tree of 3-8 synthetic blocks (several per height) and their checkpoints: SaveBlock, SaveBlockHeader (same hash, more SupLinks/signatures, other witness), " +
+		Rule: "histories of 0-40 ops (mean about 20) over a tree of 3-8 synthetic blocks (several per height) and their checkpoints: SaveBlock, SaveBlockHeader (same hash, more SupLinks/signatures, other witness), " +
 			"SaveChainStatus (main-chain index rewritten along a branch), SaveCheckpoints (new and re-saved with other status/votes; also before their block), explicit reads (one getter, 1-3 times); " +
 			"LRU capacities production or 1-4 per cache; full comparison of all 10 getters on all objects (stored and never-stored) after every op (2/3 of runs) or at drawn ops, and always at the end; " +
 			"non-trivial = >=3 kinds of save and at least one answer served from a cache for an object whose stored value had been overwritten; distinct = hash of the save sequence and of every observation",
